@@ -13,47 +13,51 @@ Section Extremum.
   Variable gt : val -> val -> bool.       (* `new > *curr` of a Rust Ord *)
   Hypothesis gt_irrefl : forall a, gt a a = false.
   Hypothesis gt_trans : forall a b c, gt a b = true -> gt b c = true -> gt a c = true.
-  Hypothesis gt_total : forall a b, a = b \/ gt a b = true \/ gt b a = true.
+  (* totality is only needed on a domain D (e.g. the entries of one keyed singleton) *)
+  Variable D : val -> Prop.
+  Hypothesis gt_total : forall a b, D a -> D b -> a = b \/ gt a b = true \/ gt b a = true.
 
   Definition pick (c n : val) : val := if gt n c then n else c.
   Definition is_ext (l : list val) (m : val) : Prop := In m l /\ forall x, In x l -> gt x m = false.
 
-  Lemma pick_fold : forall l a,
+  Lemma pick_fold : forall l a, D a -> (forall x, In x l -> D x) ->
     (fold_left pick l a = a \/ In (fold_left pick l a) l) /\
     gt a (fold_left pick l a) = false /\
     (forall x, In x l -> gt x (fold_left pick l a) = false).
   Proof.
-    induction l as [|x l IH]; intros a; simpl.
+    induction l as [|x l IH]; intros a Da Dl; simpl.
     - repeat split; auto. intros x [].
     - assert (EA : pick a x = if gt x a then x else a) by reflexivity.
       destruct (gt x a) eqn:G; rewrite EA.
-      + destruct (IH x) as (I1 & I2 & I3).
+      + destruct (IH x) as (I1 & I2 & I3); [apply Dl; left; reflexivity | intros; apply Dl; right; assumption |].
         split; [destruct I1 as [->|i]; auto|]. split.
         * destruct (gt a (fold_left pick l x)) eqn:C; [|reflexivity].
           rewrite (gt_trans _ _ _ G C) in I2. discriminate.
         * intros y [<-|i]; auto.
-      + destruct (IH a) as (I1 & I2 & I3).
+      + destruct (IH a) as (I1 & I2 & I3); [exact Da | intros; apply Dl; right; assumption |].
         split; [destruct I1 as [->|i]; auto|]. split; [exact I2|].
         intros y [<-|i]; [|auto].
         destruct (gt x (fold_left pick l a)) eqn:C; [|reflexivity].
-        destruct (gt_total a (fold_left pick l a)) as [E|[E|E]].
+        assert (Dr : D (fold_left pick l a)) by (destruct I1 as [->|i]; [exact Da | apply Dl; right; exact i]).
+        destruct (gt_total a (fold_left pick l a) Da Dr) as [E|[E|E]].
         * rewrite <- E in C. congruence.
         * congruence.
         * rewrite (gt_trans _ _ _ C E) in G. discriminate.
   Qed.
 
-  Lemma reduce_pick_ext : forall l m, reduce_list pick l = Some m -> is_ext l m.
+  Lemma reduce_pick_ext : forall l m, (forall x, In x l -> D x) -> reduce_list pick l = Some m -> is_ext l m.
   Proof.
-    intros [|h t] m H; [discriminate|]. unfold reduce_list in H. simpl in H.
+    intros [|h t] m Dl H; [discriminate|]. unfold reduce_list in H. simpl in H.
     rewrite reduce_fold in H. injection H as <-.
-    destruct (pick_fold t h) as (I1 & I2 & I3). split.
+    destruct (pick_fold t h) as (I1 & I2 & I3);
+      [apply Dl; left; reflexivity | intros; apply Dl; right; assumption |]. split.
     - destruct I1 as [->|i]; [left; reflexivity | right; exact i].
     - intros x [<-|i]; auto.
   Qed.
 
-  Lemma ext_unique : forall l m m', is_ext l m -> is_ext l m' -> m = m'.
+  Lemma ext_unique : forall l m m', (forall x, In x l -> D x) -> is_ext l m -> is_ext l m' -> m = m'.
   Proof.
-    intros l m m' [i1 h1] [i2 h2]. destruct (gt_total m m') as [E|[E|E]]; auto.
+    intros l m m' Dl [i1 h1] [i2 h2]. destruct (gt_total m m' (Dl _ i1) (Dl _ i2)) as [E|[E|E]]; auto.
     - rewrite (h2 m i1) in E. discriminate.
     - rewrite (h1 m' i2) in E. discriminate.
   Qed.
@@ -66,23 +70,26 @@ Section Extremum.
 
   (* max / min see only the SET of elements: invariant under every permutation and every
      duplication (covers both the ordering and the retries assumption of Stream::max / min) *)
-  Theorem extremum_set_invariant : forall l l',
+  Theorem extremum_set_invariant : forall l l', (forall x, In x l -> D x) ->
     (forall x, In x l <-> In x l') -> reduce_list pick l = reduce_list pick l'.
   Proof.
-    intros l l' S.
+    intros l l' Dl S.
+    assert (Dl' : forall x, In x l' -> D x) by (intros x i; apply Dl; apply S; exact i).
     destruct (reduce_list pick l) as [m|] eqn:E1; destruct (reduce_list pick l') as [m'|] eqn:E2; auto.
-    - f_equal. apply reduce_pick_ext in E1. apply reduce_pick_ext in E2.
-      apply (ext_unique l m m' E1). destruct E2 as [i h]. split; [apply S; exact i|].
+    - f_equal. apply reduce_pick_ext in E1; [|exact Dl]. apply reduce_pick_ext in E2; [|exact Dl'].
+      apply (ext_unique l m m' Dl E1). destruct E2 as [i h]. split; [apply S; exact i|].
       intros x ix. apply h. apply S. exact ix.
-    - apply reduce_none in E2. subst. apply reduce_pick_ext in E1. destruct E1 as [i _].
+    - apply reduce_none in E2. subst. apply reduce_pick_ext in E1; [|exact Dl]. destruct E1 as [i _].
       apply S in i. destruct i.
-    - apply reduce_none in E1. subst. apply reduce_pick_ext in E2. destruct E2 as [i _].
+    - apply reduce_none in E1. subst. apply reduce_pick_ext in E2; [|exact Dl']. destruct E2 as [i _].
       apply S in i. destruct i.
   Qed.
 
-  Corollary extremum_perm : forall l l', Permutation l l' -> reduce_list pick l = reduce_list pick l'.
+  Corollary extremum_perm : forall l l', (forall x, In x l -> D x) -> Permutation l l' ->
+    reduce_list pick l = reduce_list pick l'.
   Proof.
-    intros l l' P. apply extremum_set_invariant. intros x. split; apply Permutation_in; [|symmetry]; exact P.
+    intros l l' Dl P. apply extremum_set_invariant; [exact Dl|].
+    intros x. split; apply Permutation_in; [|symmetry]; exact P.
   Qed.
 End Extremum.
 
@@ -135,7 +142,11 @@ Proof. intros. unfold vltb, vgtb. rewrite (vcmp_antisym a b). destruct (vcmp a b
 (* Stream::max / Stream::min as written in the library (closures c_max / c_min) *)
 Theorem max_set_invariant : forall l l',
   (forall x, In x l <-> In x l') -> reduce_list c_max l = reduce_list c_max l'.
-Proof. exact (extremum_set_invariant vgtb vgtb_irrefl vgtb_trans vgtb_total). Qed.
+Proof.
+  intros l l' S.
+  apply (extremum_set_invariant vgtb vgtb_irrefl vgtb_trans (fun _ => True)); auto.
+  intros a b _ _. apply vgtb_total.
+Qed.
 
 Theorem min_set_invariant : forall l l',
   (forall x, In x l <-> In x l') -> reduce_list c_min l = reduce_list c_min l'.
@@ -145,10 +156,10 @@ Proof.
   { intros l0. unfold reduce_list. generalize (@None val). induction l0 as [|x r IH]; intros o; simpl; auto.
     rewrite IH. f_equal. destruct o; simpl; auto. unfold c_min, pick. rewrite vltb_vgtb. reflexivity. }
   rewrite !E.
-  apply (extremum_set_invariant (fun a b => vgtb b a)); auto.
+  apply (extremum_set_invariant (fun a b => vgtb b a)) with (D := fun _ => True); auto.
   - intros a. apply vgtb_irrefl.
   - intros a b c H1 H2. eapply vgtb_trans; eauto.
-  - intros a b. destruct (vgtb_total a b) as [e|[e|e]]; auto.
+  - intros a b _ _. destruct (vgtb_total a b) as [e|[e|e]]; auto.
 Qed.
 
 (* ------------------------------------------------------------------ count, is_empty, value_counts *)
@@ -250,3 +261,144 @@ Qed.
    reading is equal under the weaker one *)
 Theorem weaken_sound : forall a b, equiv true a b -> equiv false a b.
 Proof. intros a b H. simpl in *. subst. reflexivity. Qed.
+
+(* ------------------------------------------------------------------ the keyed-singleton invariant *)
+
+(* entries of a keyed singleton have pairwise distinct keys *)
+Definition keys_distinct (es : list val) : Prop := NoDup (map vfst es).
+
+Lemma kupd_keys : forall g k m,
+  map fst (kupd g k m) = if in_dec val_eq_dec k (map fst m) then map fst m else map fst m ++ [k].
+Proof.
+  induction m as [|[k0 v0] r IH]; simpl; [reflexivity|].
+  destruct (val_eq_dec k k0) as [->|ne]; simpl.
+  - destruct (val_eq_dec k0 k0); [reflexivity | congruence].
+  - rewrite IH. destruct (val_eq_dec k0 k); [congruence|].
+    destruct (in_dec val_eq_dec k (map fst r)); reflexivity.
+Qed.
+
+Lemma kupd_nodup : forall g k m, NoDup (map fst m) -> NoDup (map fst (kupd g k m)).
+Proof.
+  intros g k m H. rewrite kupd_keys. destruct (in_dec val_eq_dec k (map fst m)) as [i|n]; [exact H|].
+  apply (Permutation_NoDup (Permutation_cons_append (map fst m) k)). constructor; assumption.
+Qed.
+
+Lemma fold_kupd_nodup : forall (upd : list (val * val) -> val -> list (val * val)),
+  (forall m e, NoDup (map fst m) -> NoDup (map fst (upd m e))) ->
+  forall l m, NoDup (map fst m) -> NoDup (map fst (fold_left upd l m)).
+Proof. intros upd H. induction l as [|x r IH]; intros m N; simpl; auto. Qed.
+
+Lemma kentries_keys : forall m, map vfst (kentries m) = map fst m.
+Proof. induction m as [|[k v] r IH]; simpl; congruence. Qed.
+
+(* the producers establish the invariant: keyed fold / keyed reduce states *)
+Theorem kfold_keys_distinct : forall init acc l, keys_distinct (kentries (kfold_list init acc l)).
+Proof.
+  intros. unfold keys_distinct, kfold_list. rewrite kentries_keys.
+  apply fold_kupd_nodup; [|constructor]. intros m e N. apply kupd_nodup. exact N.
+Qed.
+
+Theorem kreduce_keys_distinct : forall f l, keys_distinct (kentries (kreduce_list f l)).
+Proof.
+  intros. unfold keys_distinct, kreduce_list. rewrite kentries_keys.
+  apply fold_kupd_nodup; [|constructor]. intros m e N. apply kupd_nodup. exact N.
+Qed.
+
+Lemma distinct_inj : forall es a b, keys_distinct es -> In a es -> In b es -> vfst a = vfst b -> a = b.
+Proof.
+  induction es as [|e r IH]; intros a b N ia ib E; [destruct ia|].
+  unfold keys_distinct in N. simpl in N. inversion N as [|k ks nin N']; subst.
+  destruct ia as [<-|ia]; destruct ib as [<-|ib]; auto.
+  - exfalso. apply nin. rewrite E. apply in_map. exact ib.
+  - exfalso. apply nin. rewrite <- E. apply in_map. exact ia.
+Qed.
+
+(* ---- KeyedSingleton::into_singleton (both call sites): inserting distinct-keyed entries into a
+   HashMap gives the same map whatever the order of the entries *)
+Definition map_eq (m m' : list (val * val)) : Prop := forall k, klookup k m = klookup k m'.
+
+Lemma ins_lookup : forall m e k,
+  klookup k (ins_entry m e) = if val_eq_dec k (vfst e) then Some (vsnd e) else klookup k m.
+Proof. intros. unfold ins_entry. apply klookup_kupd. Qed.
+
+Lemma ins_map_eq : forall m m' e, map_eq m m' -> map_eq (ins_entry m e) (ins_entry m' e).
+Proof. intros m m' e H k. rewrite !ins_lookup. destruct (val_eq_dec k (vfst e)); auto. Qed.
+
+Lemma ins_swap : forall m m' x y, map_eq m m' -> vfst x <> vfst y ->
+  map_eq (ins_entry (ins_entry m y) x) (ins_entry (ins_entry m' x) y).
+Proof.
+  intros m m' x y H ne k. rewrite !ins_lookup.
+  destruct (val_eq_dec k (vfst x)); destruct (val_eq_dec k (vfst y)); auto; congruence.
+Qed.
+
+Lemma into_map_perm_gen : forall l l', Permutation l l' -> keys_distinct l ->
+  forall m m', map_eq m m' -> map_eq (fold_left ins_entry l m) (fold_left ins_entry l' m').
+Proof.
+  intros l l' P. induction P; intros N m m' E; simpl.
+  - exact E.
+  - apply IHP; [inversion N; assumption | apply ins_map_eq; exact E].
+  - assert (ne : vfst x <> vfst y).
+    { unfold keys_distinct in N. simpl in N. inversion N as [|k ks nin _]; subst.
+      intros e. apply nin. left. exact e. }
+    assert (G : forall l0 a b, map_eq a b -> map_eq (fold_left ins_entry l0 a) (fold_left ins_entry l0 b)).
+    { induction l0 as [|z l0 IHl0]; intros s1 s2 H; simpl; auto. apply IHl0. apply ins_map_eq. exact H. }
+    apply G. apply ins_swap; assumption.
+  - intros k. rewrite (IHP1 N m m' E k).
+    assert (N2 : keys_distinct l').
+    { unfold keys_distinct in *. eapply Permutation_NoDup; [apply Permutation_map; exact P1 | exact N]. }
+    apply (IHP2 N2 m' m'). intros k0. reflexivity.
+Qed.
+
+Theorem into_singleton_order_independent : forall es es',
+  keys_distinct es -> Permutation es es' -> map_eq (into_map es) (into_map es').
+Proof.
+  intros es es' N P. unfold into_map. apply into_map_perm_gen; auto. intros k. reflexivity.
+Qed.
+
+(* ---- KeyedSingleton::get_max_key: the entry with the largest key is unique *)
+Theorem get_max_key_order_independent : forall es es',
+  keys_distinct es -> Permutation es es' -> reduce_list c_maxkey es = reduce_list c_maxkey es'.
+Proof.
+  intros es es' N P.
+  assert (E : forall l0, reduce_list c_maxkey l0 = reduce_list (pick (fun a b => vgtb (vfst a) (vfst b))) l0).
+  { intros l0. reflexivity. }
+  rewrite !E.
+  apply (extremum_perm (fun a b => vgtb (vfst a) (vfst b))) with (D := fun e => In e es); auto.
+  - intros a. apply vgtb_irrefl.
+  - intros a b c. apply vgtb_trans.
+  - intros a b ia ib. destruct (vgtb_total (vfst a) (vfst b)) as [e|[e|e]]; auto.
+    left. eapply distinct_inj; eauto.
+Qed.
+
+(* ---- Stream::repeat_with_keys: every key's group is the item stream, whatever the key order *)
+Lemma proj_map_VP : forall k key items,
+  proj k (map (VP key) items) = if val_eq_dec key k then items else [].
+Proof.
+  intros k key items. unfold proj, veqb. induction items as [|i r IH]; simpl.
+  - destruct (val_eq_dec key k); reflexivity.
+  - destruct (val_eq_dec key k); simpl; [f_equal|]; exact IH.
+Qed.
+
+Lemma proj_nested : forall k ks items, NoDup ks ->
+  proj k (nested ks items) = if in_dec val_eq_dec k ks then items else [].
+Proof.
+  induction ks as [|key r IH]; intros items N; [reflexivity|].
+  unfold nested in *. simpl flat_map. rewrite proj_app, proj_map_VP.
+  inversion N as [|x xs nin N']; subst. rewrite (IH items N').
+  destruct (val_eq_dec key k) as [->|ne].
+  - destruct (in_dec val_eq_dec k r) as [i|n]; [contradiction|].
+    destruct (in_dec val_eq_dec k (k :: r)) as [_|n']; [apply app_nil_r | exfalso; apply n'; left; reflexivity].
+  - destruct (in_dec val_eq_dec k r) as [i|n]; destruct (in_dec val_eq_dec k (key :: r)) as [i'|n']; auto.
+    + exfalso. apply n'. right. exact i.
+    + destruct i' as [e|i']; [congruence | contradiction].
+Qed.
+
+Theorem repeat_with_keys_order_independent : forall ks ks' items,
+  NoDup ks -> Permutation ks ks' -> forall k, proj k (nested ks items) = proj k (nested ks' items).
+Proof.
+  intros ks ks' items N P k.
+  rewrite !proj_nested; [|eapply Permutation_NoDup; eauto | exact N].
+  destruct (in_dec val_eq_dec k ks) as [i|n]; destruct (in_dec val_eq_dec k ks') as [i'|n']; auto.
+  - exfalso. apply n'. eapply Permutation_in; eauto.
+  - exfalso. apply n. eapply Permutation_in; [symmetry|]; eauto.
+Qed.
